@@ -29,7 +29,7 @@ typedef make_solver<amg<CB, coarsening::smoothed_aggregation, relaxation::spai0>
 typedef make_solver<amg<RB, coarsening::smoothed_aggregation, relaxation::spai0>, solver::fgmres<RB>> SolverR;
 
 static void sub_adapter() {
-    long N = vf::tier(80, 1500);
+    long N = vf::tier(200, 4000);
     for (long idx = 0; idx < N; ++idx) {
         if (!vf::selected("complex_adapter", idx)) continue;
         Rng r(vf::case_seed("complex_adapter", idx)); bool exact = r.coin(0.5); size_t n = idx % 6 == 0 ? r.range(40, 200) : r.range(1, 25);
@@ -64,7 +64,7 @@ static void sub_adapter() {
 }
 
 static void sub_solves() {
-    long N = vf::tier(36, 500); const size_t MAXIT = 300;
+    long N = vf::tier(90, 1500); const size_t MAXIT = 300;
     for (long idx = 0; idx < N; ++idx) {
         if (!vf::selected("complex_solves", idx)) continue;
         Rng r(vf::case_seed("complex_solves", idx)); bool small = idx % 2 == 0; bool herm = idx % 3 != 2; std::string bn;
